@@ -55,13 +55,24 @@ def setup_net():
     for a in ("127.0.0.2", "127.0.0.3", "127.0.0.4", "127.0.0.53"):
         sh("ip addr add %s/8 dev lo" % a)
     # second namespace for the DHCP client end of the veth pair
-    holder = subprocess.Popen(["unshare", "--net", "sleep", "300"])
-    time.sleep(0.2)
+    holder = subprocess.Popen(["unshare", "--net", "sleep", "600"])
+    # wait until the holder really lives in its own network namespace (the machine may be busy)
+    mine = os.readlink("/proc/self/ns/net")
+    for _ in range(300):
+        try:
+            if os.readlink("/proc/%d/ns/net" % holder.pid) != mine:
+                break
+        except OSError:
+            pass
+        time.sleep(0.05)
     sh("ip link add veth0 type veth peer name veth1")
     sh("ip link set veth1 netns %d" % holder.pid)
     sh("ip addr add 192.0.2.1/24 dev veth0 && ip link set veth0 up")
-    sh("nsenter -t %d -n ip link set veth1 up" % holder.pid)
-    sh("nsenter -t %d -n ip link set lo up" % holder.pid)
+    for _ in range(50):
+        if subprocess.run("nsenter -t %d -n ip link set veth1 up" % holder.pid, shell=True, stdout=subprocess.DEVNULL, stderr=subprocess.DEVNULL).returncode == 0:
+            break
+        time.sleep(0.1)
+    sh("nsenter -t %d -n ip link set lo up" % holder.pid, check=False)
     return holder
 
 
@@ -216,15 +227,47 @@ def dns_query(qid, name, rd=1, qtype=1):
     return q + b"\0" + struct.pack("!HH", qtype, 1)
 
 
+def opt_rr(options=b"", size=1232):
+    return b"\0" + struct.pack("!HHIH", 41, size, 0, len(options)) + options
+
+
+def edns_opt(code, data):
+    return struct.pack("!HH", code, len(data)) + data
+
+
+def hostile_dns_queries(rnd):
+    base = dns_query(0x4242, "hostile.example.com")
+    hdr = lambda qd=1, ar=0: struct.pack("!HHHHHH", 0x4242, 0x0100, qd, 0, 0, ar)
+    q_with_ar = hdr(1, 1) + base[12:]
+    return [
+        ("truncated-header", base[:5]),
+        ("no-question", hdr(1)),
+        ("pointer-loop", hdr(1) + b"\xc0\x0c" + struct.pack("!HH", 1, 1)),
+        ("cookie-len-4", q_with_ar + opt_rr(edns_opt(10, b"abcd"))),
+        ("cookie-len-0", q_with_ar + opt_rr(edns_opt(10, b""))),
+        ("cookie-len-9", q_with_ar + opt_rr(edns_opt(10, b"abcdefghi"))),
+        ("option-beyond-rdata", q_with_ar + b"\0" + struct.pack("!HHIH", 41, 1232, 0, 4) + struct.pack("!HH", 10, 60)),
+        ("ede-in-query-len-1", q_with_ar + opt_rr(edns_opt(15, b"x"))),
+        ("nsid", q_with_ar + opt_rr(edns_opt(3, b""))),
+        ("reserved-label", hdr(1) + b"\x41" + b"a" * 65 + b"\0" + struct.pack("!HH", 1, 1)),
+        ("qdcount-65535", hdr(65535) + base[12:]),
+        ("two-opts", hdr(1, 2) + base[12:] + opt_rr() + opt_rr()),
+        ("rdlen-too-long", q_with_ar + b"\0" + struct.pack("!HHIH", 41, 1232, 0, 400)),
+        ("label-past-end", hdr(1) + b"\x3fabc"),
+    ]
+
+
 def upstream(stop_fd):
     """scripted upstream on 127.0.0.53:53: answers every query with one A record 192.0.2.<low byte of id>"""
     s = socket.socket(socket.AF_INET, socket.SOCK_DGRAM)
     s.bind(("127.0.0.53", 53))
     seen = 0
     while True:
-        r, _, _ = select.select([s, stop_fd], [], [], 5)
+        r, _, _ = select.select([s, stop_fd], [], [], 120)
         if stop_fd in r or not r:
             break
+        if s not in r:
+            continue
         q, addr = s.recvfrom(65535)
         seen += 1
         # question ends after the first name + 4
@@ -232,8 +275,17 @@ def upstream(stop_fd):
         while q[i] != 0:
             i += 1 + q[i]
         question = q[12:i + 5]
-        resp = q[0:2] + struct.pack("!HHHHH", 0x8180, 1, 1, 0, 0) + question
-        resp += b"\xc0\x0c" + struct.pack("!HHIH", 1, 1, 60, 4) + bytes([192, 0, 2, q[1]])
+        name = q[12:i]
+        if name.startswith(b"\x09ede-short"):
+            # hostile upstream: EDNS with an extended-DNS-error option of one octet
+            resp = q[0:2] + struct.pack("!HHHHH", 0x8182, 1, 0, 0, 1) + question + opt_rr(edns_opt(15, b"x"))
+        elif name.startswith(b"\x0aede-empty0"):
+            resp = q[0:2] + struct.pack("!HHHHH", 0x8182, 1, 0, 0, 1) + question + opt_rr(edns_opt(15, b""))
+        elif name.startswith(b"\x07garbage"):
+            resp = q[0:2] + b"\x81\x80\xff"
+        else:
+            resp = q[0:2] + struct.pack("!HHHHH", 0x8180, 1, 1, 0, 0) + question
+            resp += b"\xc0\x0c" + struct.pack("!HHIH", 1, 1, 60, 4) + bytes([192, 0, 2, q[1]])
         s.sendto(resp, addr)
     os.write(stop_fd, str(seen).encode()) if False else None
     return seen
@@ -281,9 +333,28 @@ def scenario_dns(rnd):
         qid += 1
         r = udp_ask(src, dst, 5353, dns_query(qid, name), v6)
         out.append({"what": what, "dst": dst, "qid": qid, "reply": r})
-    os.write(wfd, b"x")
+    # hostile datagrams at the listener that answers on this tree ([::1]); after each one a valid query
+    # for a fresh name must still be answered
+    hostile = []
+    hq = hostile_dns_queries(rnd)
+    rnd.shuffle(hq)
+    for k, (what, pkt) in enumerate(hq):
+        udp_ask(None, "::1", 5353, pkt, True, timeout=0.25)
+        qid += 1
+        r = udp_ask(None, "::1", 5353, dns_query(qid, "after-%d.example.com" % k), True, timeout=3.0)
+        hostile.append({"after": what, "answered": r is not None and r["id"] == qid and r["rcode"] == 0})
+    for k, name in enumerate(["ede-short.example.com", "ede-empty0.example.com", "garbage.example.com"]):
+        qid += 1
+        udp_ask(None, "::1", 5353, dns_query(qid, name), True, timeout=0.6)
+        qid += 1
+        r = udp_ask(None, "::1", 5353, dns_query(qid, "after-up-%d.example.com" % k), True, timeout=3.0)
+        hostile.append({"after": "upstream:" + name, "answered": r is not None and r["id"] == qid and r["rcode"] == 0})
+    try:
+        os.write(wfd, b"x")
+    except OSError:
+        pass
     os.waitpid(pid, 0)
-    return {"queries": out}
+    return {"queries": out, "hostile": hostile}
 
 
 def inner(argv):
